@@ -120,7 +120,7 @@ const FAMILIES: [&str; 19] = [
     "G2 mul_assign",
     "G1 wNAF (context reused)",
     "G1 precomp_256 + mul_precomp_256",
-    "G1 sum_of_products (8 terms) + pippinger",
+    "G1 sum_of_products (8 terms, repeated bases) + pippinger",
     "G1 sum_of_products_precomp_256 (160 terms, shared table)",
     "G2Prepared::from_affine + Miller loop",
     "pairing",
@@ -195,9 +195,15 @@ fn run_op(fam: usize, v: usize) -> u64 {
             if neg {
                 p.negate();
             }
-            for _ in 0..8 {
+            let start = p;
+            for j in 0..8 {
                 pts.push(p.into_affine());
-                p.double();
+                // the same base occurs more than once (positions 0, 3 and 6)
+                if j == 2 || j == 5 {
+                    p = start;
+                } else {
+                    p.double();
+                }
             }
             let ks: Vec<[u64; 4]> = (0..8).map(|j| k(s + 10 + j).0).collect();
             let refs: Vec<&[u64; 4]> = ks.iter().collect();
